@@ -86,11 +86,14 @@ def run(job):
     except IncompatibleUnitsError:
         job.case("temperature/other-type", "", True)
     # user tables
-    for form in ("mapping", "list"):
-        for both in (False, True):
+    import itertools as _it
+    for form, both, (f2, o2) in _it.product(
+            ("mapping", "list"), (False, True),
+            ((Decimal(4), Fraction(-1, 8)), (3, 1), (-2, 0),
+             (Fraction(5, 2), Decimal("0.3")), (7, Fraction(1, 3)))):
+        if True:
             cls, us = W.table_type(4)
             f1, o1 = Fraction(7, 3), Decimal("1.5")
-            f2, o2 = Decimal(4), Fraction(-1, 8)
             rows = [(us[0], us[1], f1, o1), (us[1], us[2], f2, o2)]
             if both:
                 rows.append((us[1], us[0], 1 / Fraction(f1), -O.F(o1) / f1))
@@ -125,8 +128,12 @@ def run(job):
                 q2 = a * us[2]
                 r2 = q2.convert(us[1])
                 exp2 = (O.F(a) - O.F(o2)) / O.F(f2)
-                job.case("table/reverse-only", (form, both, repr(a)),
-                         O.F(r2.amount) == exp2, repr(r2), repr(exp2))
+                job.case("table/reverse-only", (form, both, repr(a), repr(f2)),
+                         O.F(r2.amount) == exp2 and
+                         not isinstance(r2.amount, float) and
+                         O.F(r2.convert(us[2]).amount) == O.F(a) and
+                         (q2 == r2) is True and (r2 == q2) is True,
+                         repr(r2), repr(exp2))
                 job.case("table/same-unit", (form, both, repr(a)),
                          O.F(q.convert(us[0]).amount) == O.F(a), "", "")
                 job.case("table/eq-across-units", (form, both, repr(a)),
